@@ -293,7 +293,9 @@ def load_module_from_file_object(
             ts = fp.read(4)
             if magic_int in (3439,) or version >= (3, 7):
                 # PEP 552. https://www.python.org/dev/peps/pep-0552/
-                pep_bits = ts[-1]
+                # The flag word is little endian: bit 0, which marks a
+                # hash-based pyc, is in the first byte.
+                pep_bits = ts[0]
                 if PYTHON_VERSION_TRIPLE <= (2, 7):
                     pep_bits = ord(pep_bits)
                 if (pep_bits & 1) or magic_int == 3393:  # 3393 is 3.7.0beta3
